@@ -306,3 +306,29 @@ also8("C18", "the serial close's token channel has one blocking send and one blo
 
 also8("C15", "module-wide error discipline (257 error-returning call sites: each surfaced, or one of 44 confirmed and frozen exceptions).")
 also8("C20", "no outcome invented by swallowing an error: the module-wide error discipline of C15.R26.")
+
+
+def also9(pid, text):
+    t, x, r = CLAIMS[pid]
+    CLAIMS[pid] = (t, x + " ALSO DECIDED (eighth seeded round): " + text, r)
+
+_layers = "every layer over a module interface is a pass-through (one inner call, own arguments, results untouched; frozen table of opaque-by-design methods) and every wrapper put around a collaborator is the known read-only one or a proven pass-through"
+also9("C01", _layers + "; handlers hand events on synchronously; every path through the listener reaches the dispatch on the event's type.")
+also9("C02", _layers + "; the configuration is only read outside package config; no in-place store to an Offset.")
+also9("C03", _layers + "; every path through the listener reaches the dispatch on the event's type (path check).")
+also9("C04", _layers + "; dirty marks are cleared only after a successful write; nothing saves while the stream is closed for a rebalance.")
+also9("C05", _layers + ".")
+also9("C06", _layers + ".")
+also9("C07", "no layer between the mitigation and the dispatcher that is not a proven pass-through.")
+also9("C08", "openStream reads the position at call time on every attempt; every path through the listener reaches the dispatch on the event's type.")
+also9("C09", "an unresolved ${VAR} never becomes member 1; the follower's handler announces exactly what the leader sent.")
+also9("C10", "the bus listener calls Stream.Rebalance on every path; every HTTP route has exactly one handler and the application-wide middlewares are the known ones.")
+also9("C11", "a re-open requests exactly the loaded position; the public Close is neither called nor handed out inside the module; nothing saves while the stream is closed for a rebalance.")
+also9("C12", "Rebalance closes with Close(false); the close ends the session before it closes streams and empties the position map.")
+also9("C13", _layers + "; the public Close is an entry point only; the session counter is advanced before the close touches anything.")
+also9("C14", "no package-level variable is written after initialisation (no process-wide key memo).")
+also9("C15", _layers + "; the checkpoint-ahead guard also refuses a stored position for a vBucket the sequence-number answer does not contain.")
+also9("C16", _layers + "; routes and middlewares as registered; no process-wide remembered answer.")
+also9("C17", "the module never writes the process environment; the configuration reaches the defaulting function as the caller's own pointer, struct value or loaded file.")
+also9("C18", "the gate constants are never written after their declaration (no init() that re-points them, no store through them).")
+also9("C20", _layers + "; no integer division by a divisor not tested non-zero (completion callbacks do not panic).")
